@@ -359,6 +359,10 @@ class Interp:
             if is_concrete_num(b) and Fraction(b) == Fraction(1, 2):
                 from . import shims
                 return shims.sqrt_value(self, st, a, node)
+            if is_concrete_num(b) and Fraction(b) == Fraction(1, 3):
+                from . import shims
+                self.assumed.add("A3 x**(1/3): real cube root (r*r*r == x, sign of x)")
+                return shims.cbrt_value(self, st, a)
             return num_pow(a, b)
         if opn == "Mod":
             if is_concrete_num(a) and is_concrete_num(b):
